@@ -244,7 +244,19 @@ def run(ctx):
         found = C.oracle_search(ctx, reqs, oracle, "loadasm")
         ctx.log(f"tie broken; oracle search on the implementation found a failing input: {found}")
         return C.finish(ctx)
+    # the word-slice entry points (`dr::load_words`, `Module::assemble_into`) must answer like the byte ones
+    wreqs = [("loadasmw " + r.split(" ", 1)[1], r) for r in reqs[:: (4 if ctx.tier == "quick" else 1)] if r.startswith("loadasm ")]
     impl, model = C.differential(ctx, reqs, "loadasm", oracle=oracle, shrink=False)
+    if wreqs:
+        by_req = dict(zip(reqs, impl))
+        wimpl = C.run_impl(ctx, [w for w, _ in wreqs])
+        wmodel = C.run_driver(ctx, [w for w, _ in wreqs])
+        ctx.evaluations += len(wreqs)
+        wbad = [(w, a, by_req[r], b) for (w, r), a, b in zip(wreqs, wimpl, wmodel) if a != by_req[r] or C.canon(a) != C.canon(b)]
+        for w, a, base, b in wbad[:3]:
+            ctx.issue(f"oracle:load_words:{w[:100]}", "dr::load_words / assemble_into answers differently from dr::load_bytes / assemble (or from the model)",
+                      witness={"request": w, "load_words": a[:300], "load_bytes": base[:300], "model": b[:300]}, found_input=True, kind="oracle")
+        ctx.oblige(f"oracle:load_words ({len(wreqs)} inputs through the word-slice entry points)", not wbad)
     # reload: loading the output again gives an equal module (same words again)
     again = []
     for r, a in zip(reqs, impl):
